@@ -8,8 +8,8 @@ EXTENDS Handshake, Json, IOUtils
 
 Rec == ndJsonDeserialize(IOEnv.TRACE)
 
-VARIABLES l, bad, N, sigA
-tvars == <<l, bad, N, sigA>>
+VARIABLES l, bad, N, sigA, fresh   \* fresh[c]: challenges the node issued on c since c was last opened
+tvars == <<l, bad, N, sigA, fresh>>
 
 RoleDef == [c \in Conns |-> IF c % 2 = 1 THEN "acc" ELSE "ini"]
 Rng(s) == {s[i] : i \in DOMAIN s}
@@ -32,8 +32,10 @@ Checks(e, P, T) ==
     LET c == e.conn IN
     (IF IsPanic(e.res) THEN {Bad(e, "panic")} ELSE {})
     \cup (IF ~IsPanic(e.res) /\ e.ev = "resp" /\ NewlyAuthenticated(P, T, c)
-             /\ ~(Acceptable(P, c, e.key, e.x, e.valid, e.ver) /\ T.key[c] = e.key)
+             /\ ~(Acceptable(P, c, e.key, e.x, e.valid, e.ver) /\ T.key[c] = e.key /\ e.x \in fresh[c])
           THEN {Bad(e, "connected-without-valid-signature-over-own-fresh-challenge")} ELSE {})
+    \cup (IF ~IsPanic(e.res) /\ e.ev = "close" /\ (T.chal[c] # NoChal \/ T.status[c] = "connected")
+          THEN {Bad(e, "challenge-or-authentication-survives-the-connection")} ELSE {})
     \cup (IF ~IsPanic(e.res) /\ e.ev # "resp" /\ NewlyAuthenticated(P, T, c)
           THEN {Bad(e, "connected-without-a-response")} ELSE {})
     \cup (IF ~IsPanic(e.res) /\ e.ev = "resp" /\ NewlyAuthenticated(P, T, c) /\ T.chal[c] # NoChal
@@ -47,17 +49,21 @@ Checks(e, P, T) ==
              /\ \E d \in Conns \ {c} : T.status[d] # P.status[d] \/ T.key[d] # P.key[d] \/ T.chal[d] # P.chal[d]
           THEN {Bad(e, "message-changed-another-connection")} ELSE {})
 
-TraceInit == l = 1 /\ bad = {} /\ N = Empty /\ sigA = {}
+TraceInit == l = 1 /\ bad = {} /\ N = Empty /\ sigA = {} /\ fresh = [c \in Conns |-> {}]
 
 TraceNext ==
     /\ l <= Len(Rec)
     /\ LET e == Rec[l] IN
        IF e.ev = "Reset"
-       THEN N' = Empty /\ sigA' = {} /\ bad' = bad
+       THEN N' = Empty /\ sigA' = {} /\ bad' = bad /\ fresh' = [c \in Conns |-> {}]
        ELSE LET T == Obs(e) IN
             /\ bad' = bad \cup Checks(e, N, T)
             /\ N' = T
             /\ sigA' = sigA \cup {x.over : x \in {y \in Rng(e.sent) : y.msg = "resp"}}
+            /\ fresh' = [c \in Conns |->
+                           (IF e.ev \in {"open", "close"} /\ e.conn = c THEN {} ELSE fresh[c])
+                             \cup {x.x : x \in {y \in Rng(e.sent) : y.msg = "chal" /\ y.conn = c}}
+                             \cup {x.y : x \in {y \in Rng(e.sent) : y.msg = "resp" /\ y.conn = c}}]
     /\ l' = l + 1
 
 TraceSpec == TraceInit /\ [][TraceNext]_tvars
